@@ -500,7 +500,14 @@ def compare(batch, nodes_out, hashseeds):
         a = ref[j]
         stats['models'] += 1
         if 'error' in a:
-            viol.append(('C12/node-error', f'model {a["index"]}: {a["error"]}', a['index']))
+            # a transformation refused this particular combination (e.g. fixing one parameter of
+            # a joint block): not a model to hash.  Skipped when every node says the same,
+            # counted as a by-product when the nodes disagree.
+            if all(o[j].get('error') == a['error'] for o in nodes_out[1:]):
+                stats['skipped_models'] = stats.get('skipped_models', 0) + 1
+            else:
+                stats['byproduct_transformation_depends_on_hashseed'] = \
+                    stats.get('byproduct_transformation_depends_on_hashseed', 0) + 1
             continue
         for ni, other in enumerate(nodes_out[1:], start=1):
             b = other[j]
@@ -738,6 +745,7 @@ def main(argv):
                     'rename_pairs': stats['rename_pairs'], 'differ_pairs': stats['differ_pairs'],
                     'entries_retrieved_by_key_in_another_node': stats['retrieved_across_nodes'],
                     'byproduct_from_dict_not_equal': stats.get('byproduct_from_dict_not_equal', 0),
+                    'skipped_models': stats.get('skipped_models', 0),
                     'byproduct_transformation_depends_on_hashseed':
                         stats.get('byproduct_transformation_depends_on_hashseed', 0),
                     'byproduct_examples': stats.get('byproduct_examples', [])[:5],
